@@ -98,6 +98,7 @@ fn main() {
     let h = hits.lock().unwrap();
     assert!(h.iter().all(|id| *id == winners[0]), "emissions reached {:?}, winner {}", *h, winners[0]);
     assert_eq!(drops[winners[0]].load(Ordering::SeqCst), 0, "installed recorder was dropped");
+    drop(h);
     metrics::counter!("c02_miri").increment(1);
     assert_eq!(*hits.lock().unwrap().last().unwrap(), winners[0]);
     println!("prog {} handovers={}", variant, installers + emitters);
